@@ -453,12 +453,18 @@ func genCase(rng *vh.RNG) Case {
 		return s
 	}
 	n := rng.Range(1, 45)
+	long := false
 	if c.Cnt == noCnt && rng.Chance(1, 3) {
 		n = rng.Range(100, 140) // reach the default limit of 100
 		c.KeyDom = 1 << 20
+		long = true
 	}
 	for i := 0; i < n; i++ {
 		x := rng.Intn(100)
+		if long && i < 96 {
+			c.Ops = append(c.Ops, Op{K: "C", A: int64(1000 + i), B: score()})
+			continue
+		}
 		switch {
 		case x < 52:
 			c.Ops = append(c.Ops, Op{K: "C", A: key(), B: score()}, Op{K: "SNAP"})
@@ -554,7 +560,8 @@ func main() {
 		return
 	}
 	out := vh.NewOut(f.Out, "rank", "From MV Require Import Lib.ListX C16.MapX C16.RankModel C16.RankRun.", "case", "mismatches", f.Seed,
-		"random histories (1..45 ops, 100..140 for the default limit) over key domains {3,8,2^20}, score domains {2,3,5,2^20} (optionally negative), limits {default 100,-1,0,1,2..6,2^20}, asc/desc; a snapshot (Size, GetAllCompetitor, GetScore/GetRank/GetCompetitor per entry) after every mutation; thorough adds every history of <=4 mutations over 3 ids x 2 scores + removes for limits 1,2; non-trivial = a new competitor whose score ties an entry while the board is full, or an absent-key operation in a history with ties, or an eviction in a history with score updates; distinct by hash of the case")
+		"random histories (1..45 ops, 100..140 for the default limit) over key domains {3,8,2^20}, score domains {2,3,5,2^20} (optionally negative), limits {default 100,-1,0,1,2..6,2^20}, asc/desc; a snapshot (Size, GetAllCompetitor, GetScore/GetRank/GetCompetitor per entry) after every mutation; thorough adds every history of <=4 mutations over (limit+1) ids x 2 scores + removes for limits 1,2, asc and desc; non-trivial = a new competitor whose score ties an entry while the board is full, or an absent-key operation in a history with ties, or an eviction in a history with score updates; distinct by hash of the case")
+	out.PerShard = 100
 	rng := vh.NewRNG(f.Seed)
 	for _, c := range corpus() {
 		c := c
@@ -562,9 +569,9 @@ func main() {
 	}
 	n := f.N
 	if n == 0 {
-		n = 1500
+		n = 600
 		if f.Tier == "thorough" {
-			n = 30000
+			n = 8000
 		}
 	}
 	for i := 0; i < n; i++ {
@@ -573,14 +580,18 @@ func main() {
 		record(out, &c, true)
 	}
 	if f.Tier == "thorough" {
-		var alpha []Op
-		for id := int64(1); id <= 3; id++ {
-			for s := int64(1); s <= 2; s++ {
-				alpha = append(alpha, Op{K: "C", A: id, B: s})
+		mkAlpha := func(ids int64) []Op {
+			var alpha []Op
+			for id := int64(1); id <= ids; id++ {
+				for s := int64(1); s <= 2; s++ {
+					alpha = append(alpha, Op{K: "C", A: id, B: s})
+				}
+				alpha = append(alpha, Op{K: "R", A: id})
 			}
-			alpha = append(alpha, Op{K: "R", A: id})
+			return alpha
 		}
 		for _, cnt := range []int64{1, 2} {
+			alpha := mkAlpha(cnt + 1) // limit 1: 2 ids, limit 2: 3 ids
 			for _, asc := range []bool{false, true} {
 				var rec func(prefix []Op, depth int)
 				rec = func(prefix []Op, depth int) {
@@ -589,7 +600,7 @@ func main() {
 						for _, o := range prefix {
 							c.Ops = append(c.Ops, o, Op{K: "SNAP"})
 						}
-						record(out, &c, len(prefix) <= 4)
+						record(out, &c, true)
 					}
 					if depth == 0 {
 						return
@@ -598,7 +609,7 @@ func main() {
 						rec(append(prefix[:len(prefix):len(prefix)], o), depth-1)
 					}
 				}
-				rec(nil, 5)
+				rec(nil, 4)
 			}
 		}
 	}
